@@ -93,8 +93,29 @@ class Rep(Node):
         return f"({self.body!r}){{{c}}}"
 
 
+def canon_cond(t):
+    """Chained comparisons split into conjunctions of binary ones; constants on the right of ==/!=/is/is not."""
+    if t is None:
+        return None
+
+    class T(ast.NodeTransformer):
+        def visit_Compare(self, n):
+            self.generic_visit(n)
+            parts = []
+            left = n.left
+            for op, right in zip(n.ops, n.comparators):
+                l_, r_ = left, right
+                if isinstance(op, (ast.Eq, ast.NotEq, ast.Is, ast.IsNot)) and isinstance(l_, ast.Constant) and not isinstance(r_, ast.Constant):
+                    l_, r_ = r_, l_
+                parts.append(ast.Compare(left=l_, ops=[op], comparators=[r_]))
+                left = right
+            return parts[0] if len(parts) == 1 else ast.BoolOp(op=ast.And(), values=parts)
+    return T().visit(clone(t))
+
+
 class Alt(Node):
     def __init__(self, cond, a, b):
+        cond = canon_cond(cond)
         # canonical orientation: strip `not`
         while isinstance(cond, ast.UnaryOp) and isinstance(cond.op, ast.Not):
             cond, a, b = cond.operand, b, a
@@ -244,13 +265,21 @@ class Builder:
         return w
 
     def block(self, stmts, W, stop=None) -> Node:
-        """Emission of a statement list into the buffer whose writers are W, up to (not including) statement `stop`."""
+        """Emission of a statement list into the buffer whose writers are W, up to (not including) statement `stop`.
+        An `if` from which control can leave the function (return/raise somewhere inside) gets the rest of the block pushed into
+        both of its branches, so that what follows is emitted only on the paths that get there."""
         items = []
-        for s in stmts:
+        stmts = list(stmts)
+        for i, s in enumerate(stmts):
             if s is stop:
                 break
+            has_stop = stop is not None and any(x is stop for x in ast.walk(s))
+            if isinstance(s, ast.If) and not has_stop and _has_exit(s):
+                rest = stmts[i + 1:]
+                items.append(Alt(expand(self.fn, s.test), self.block(list(s.body) + rest, W, stop), self.block(list(s.orelse) + rest, W, stop)))
+                break
             items.append(self.stmt(s, W, stop))
-            if stop is not None and any(x is stop for x in ast.walk(s)):
+            if has_stop:
                 break
             if isinstance(s, (ast.Return, ast.Raise)):
                 break
@@ -325,6 +354,19 @@ class Builder:
         return self.expr(v)
 
 
+def _has_exit(s) -> bool:
+    """A return/raise somewhere inside statement s (not in nested functions)."""
+    stack = [s]
+    while stack:
+        n = stack.pop()
+        if isinstance(n, (ast.Return, ast.Raise)):
+            return True
+        if isinstance(n, (ast.FunctionDef, ast.AsyncFunctionDef, ast.Lambda, ast.ClassDef)) and n is not s:
+            continue
+        stack.extend(ast.iter_child_nodes(n))
+    return False
+
+
 def _all_definitions(fn, name):
     out = []
     for n in ast.walk(fn):
@@ -380,6 +422,14 @@ def truth(t, facts):
                     return False
     if isinstance(t, ast.Constant) and isinstance(t.value, (bool, int)):
         return bool(t.value)
+    if isinstance(t, ast.IfExp):
+        tv = truth(t.test, facts)
+        if tv is True:
+            return truth(t.body, facts)
+        if tv is False:
+            return truth(t.orelse, facts)
+        a, b = truth(t.body, facts), truth(t.orelse, facts)
+        return a if a is not None and a == b else None
     return None
 
 
@@ -392,6 +442,10 @@ def atoms_of_cond(t):
         for v in t.values:
             out.extend(atoms_of_cond(v))
         return out
+    if isinstance(t, ast.IfExp):
+        return atoms_of_cond(t.test) + atoms_of_cond(t.body) + atoms_of_cond(t.orelse)
+    if isinstance(t, ast.Constant):
+        return []
     return [t]
 
 
